@@ -9,9 +9,16 @@
 
 #include <algorithm>
 #include <cmath>
+#include <cstring>
 #include <functional>
 #include <map>
 #include <set>
+
+#include <csignal>
+#include <cxxabi.h>
+#include <sys/wait.h>
+#include <typeinfo>
+#include <unistd.h>
 
 using namespace vh;
 using Rule = Issue::ReferenceRule;
@@ -443,6 +450,18 @@ static std::string siteClass(const IrModel &m, const MathSite &s)
 static const char *kMarker = "c04_fault_marker";
 static const char *kMarkerXml = "<ci>c04_fault_marker</ci>";
 
+// Validation cost is dominated by the number of <math> elements (the MathML DTD is re-parsed for each), and components are
+// validated independently of each other: math faults keep the math / resets of the faulty component only.
+static void pruneOtherMath(IrModel &m, int keep)
+{
+    for (size_t i = 0; i < m.comps.size(); ++i) {
+        if (static_cast<int>(i) != keep) {
+            m.comps[i].math.clear();
+            m.comps[i].resets.clear();
+        }
+    }
+}
+
 static bool replaceAll(std::string &s, const std::string &from, const std::string &to)
 {
     bool any = false;
@@ -475,7 +494,8 @@ struct Fault
     LocFn locs;
     bool probe = false;   // rule not implemented by the validator / debatable: outcome recorded, never judged
     bool math = false;
-    int maxReps = 1000000; // crash-prone faults are exercised a few times only (each crash costs a worker restart)
+    int maxReps = 1000000;
+    bool crashy = false;  // the validator is known to die on this input: validate in a forked child first to get a stable signature
     std::function<void(GenOptions &)> tune;
 };
 
@@ -1585,7 +1605,10 @@ void addMath(std::vector<Fault> &cat, const std::string &name, std::vector<Rule>
             l.rawXml = gen(v, w, rng);
             l.what = "sub-expression replaced by " + l.rawXml;
             MathSite site = s;
-            l.ir = [site](IrModel &f) { *siteNode(f, site) = mkCi(kMarker); };
+            l.ir = [site](IrModel &f) {
+                *siteNode(f, site) = mkCi(kMarker);
+                pruneOtherMath(f, site.comp);
+            };
             out.push_back(l);
         }
         return out;
@@ -1708,6 +1731,7 @@ void addMathFaults(std::vector<Fault> &cat)
         return "<cn cellml:units=\"dimensionless\">" + rng.pick(std::vector<std::string> {"-", ".", "-."}) + "</cn>";
     });
     cat.back().maxReps = 3; // known: uncaught std::invalid_argument from stod
+    cat.back().crashy = true;
     addMath(cat, "math:cn-e-notation-malformed", {Rule::MATH_CN_FORMAT}, [](const std::string &, const std::string &, Rng &rng) {
         return "<cn cellml:units=\"dimensionless\" type=\"e-notation\">" + rng.pick(std::vector<std::string> {"1", "1<sep/>", "<sep/>2", "1<sep/>1.5", "1<sep/>x", "a<sep/>2", "1<sep/>2<sep/>3", "1e2<sep/>3"}) + "</cn>";
     });
@@ -1752,7 +1776,10 @@ void addMathSpecialFaults(std::vector<Fault> &cat)
             l.rawXml = ciX(rng.pick(foreign));
             l.what = "sub-expression replaced by " + l.rawXml + " (variable of another component)";
             MathSite site = s;
-            l.ir = [site](IrModel &g) { *siteNode(g, site) = mkCi(kMarker); };
+            l.ir = [site](IrModel &g) {
+                *siteNode(g, site) = mkCi(kMarker);
+                pruneOtherMath(g, site.comp);
+            };
             out.push_back(l);
         }
         return out;
@@ -1801,6 +1828,7 @@ void addMathSpecialFaults(std::vector<Fault> &cat)
                     l.cls = std::string(mode == 0 ? "component-math-replaced" : (mode == 1 ? "component-math-appended" : (rv ? "reset-value" : "reset-test-value"))) + "/" + compClass(m, ci);
                     l.what = "math string := " + x + " (API)";
                     l.text = false;
+                    l.ir = [ci](IrModel &f) { pruneOtherMath(f, ci); };
                     l.api = [=](const ModelPtr &model) {
                         for (const auto &comp : allComponents(model)) {
                             if (comp->name() != cname || comp->isImport()) {
@@ -1918,6 +1946,79 @@ static ModelPtr parseStrict(const std::string &text, const std::string &replay, 
     monitorLogger(*p, "Parser::parseModel", replay);
     issues = p->issueCount();
     return m;
+}
+
+// Validate in a forked child when the input is known to be able to kill the validator (unbounded recursion, uncaught exception):
+// returns "" when the child survived, else a stable description of how it died.  Unknown crashes are NOT routed through
+// here: they kill the worker and are triaged by the supervisor as usual.
+static void childSegv(int)
+{
+    _exit(97);
+}
+
+static std::string validateInChild(const ModelPtr &model)
+{
+    int fds[2];
+    if (pipe(fds) != 0) {
+        return "";
+    }
+    fflush(stdout);
+    pid_t pid = fork();
+    if (pid < 0) {
+        close(fds[0]);
+        close(fds[1]);
+        return "";
+    }
+    if (pid == 0) {
+        close(fds[0]);
+        // our own handler on an alternate stack: a stack overflow ends the child at once instead of producing a sanitizer report
+        static char altStack[1 << 16];
+        stack_t ss;
+        ss.ss_sp = altStack;
+        ss.ss_size = sizeof altStack;
+        ss.ss_flags = 0;
+        sigaltstack(&ss, nullptr);
+        struct sigaction sa;
+        memset(&sa, 0, sizeof sa);
+        sa.sa_handler = childSegv;
+        sa.sa_flags = SA_ONSTACK;
+        sigaction(SIGSEGV, &sa, nullptr);
+        sigaction(SIGBUS, &sa, nullptr);
+        std::string msg = "ok";
+        try {
+            auto v = Validator::create();
+            v->validateModel(model);
+        } catch (const std::exception &e) {
+            int st = 0;
+            char *dn = abi::__cxa_demangle(typeid(e).name(), nullptr, nullptr, &st);
+            msg = std::string("uncaught-exception:") + (dn != nullptr ? dn : typeid(e).name()) + ":" + e.what();
+        } catch (...) {
+            msg = "uncaught-exception:unknown";
+        }
+        ssize_t w = write(fds[1], msg.data(), msg.size());
+        (void)w;
+        _exit(0);
+    }
+    close(fds[1]);
+    std::string got;
+    char buf[512];
+    ssize_t n;
+    while ((n = read(fds[0], buf, sizeof buf)) > 0) {
+        got.append(buf, static_cast<size_t>(n));
+    }
+    close(fds[0]);
+    int status = 0;
+    waitpid(pid, &status, 0);
+    if (WIFEXITED(status) && WEXITSTATUS(status) == 0 && got == "ok") {
+        return "";
+    }
+    if (WIFEXITED(status) && WEXITSTATUS(status) == 97) {
+        return "stack-exhaustion-or-segv";
+    }
+    if (!got.empty() && got != "ok") {
+        return got;
+    }
+    return WIFSIGNALED(status) ? "signal-" + std::to_string(WTERMSIG(status)) : "exit-" + std::to_string(WEXITSTATUS(status));
 }
 
 // ---- reductions used to attribute a false rejection to a feature (each keeps the model valid by construction)
@@ -2197,6 +2298,18 @@ static void injectAt(const Fault &f, const Loc &l, const IrModel &base, Rng &rng
         l.api(api);
     }
     std::string apiDump = dumpModel(api);
+    if (f.crashy) {
+        std::string died = validateInChild(api);
+        if (!died.empty()) {
+            ++o.injected;
+            stat("faults_injected");
+            stat("inj:" + f.name);
+            stat("validator_died_in_child");
+            seen("fault_location", f.name + "@" + l.cls);
+            viol("C04", "validator-crash:" + f.name + ":" + died, "Validator::validateModel did not return (" + died + ") for fault " + f.name + " at " + l.cls + ": " + l.what, head + "API-built; canonical dump:\n" + apiDump);
+            return;
+        }
+    }
     Verdict va = validateMonitored(api, head + "API-built; canonical dump:\n" + apiDump, &apiDump);
     judge(f, l, va, "api", head + "API-built; canonical dump:\n" + apiDump, o);
     if (!l.text) {
@@ -2316,7 +2429,7 @@ static void runFault(Ctx &ctx, size_t fi)
         caseInfo("F:none:" + f.name, false, "fault " + f.name + ": no applicable base model found");
         return;
     }
-    size_t maxN = ctx.thorough() ? 8 : 3;
+    size_t maxN = ctx.thorough() ? (f.math ? 8 : 12) : 3;
     auto locs = chooseLocs(bestLocs, rng, maxN);
     Outcome o;
     std::string classes;
@@ -2646,6 +2759,16 @@ static void runCycleConnected(Ctx &ctx)
                 std::string d = dumpModel(api);
                 std::string rp = "fault=units:cycle-connected: units '" + k.ref + "' (used by connected variable '" + v1->name + "') references itself\n" + d;
                 stage("units-cycle-connected:validate");
+                std::string died = validateInChild(api);
+                if (!died.empty()) {
+                    stat("faults_injected");
+                    stat("inj:units:cycle-connected");
+                    stat("validator_died_in_child");
+                    seen("fault_location", "units:cycle-connected@self-reference/used-by-connected-variable");
+                    viol("C04", "validator-crash:units:cycle-connected:" + died, "Validator::validateModel did not return (" + died + "): units used by two connected variables reference themselves", rp);
+                    caseInfo("S4:" + ir.structuralHash(), true, "cyclic units used by connected variables: validator died (" + died + ")");
+                    return;
+                }
                 Verdict v = validateMonitored(api, rp, &d);
                 Fault f;
                 f.name = "units:cycle-connected";
@@ -2683,7 +2806,7 @@ static Plan makePlan(const std::string &tier)
     p.nPrefix = th ? 150 : 12;
     p.nResolved = th ? 150 : 12;
     p.nCycle = th ? 4 : 2;
-    int reps = th ? 60 : 3;
+    int reps = th ? 200 : 3;
     int mathReps = th ? 25 : 3;
     const auto &cat = catalogue();
     for (int r = 0; r < reps; ++r) {
